@@ -317,7 +317,10 @@ Fixpoint exec_o (fuel : nat) (s0 : st) (L : list label) (s : stmt) {struct fuel}
         | (s1, inr x) => (s1, L, OExn x)
         end
     | SLabelled t s =>
+        (* a break that targets this label and was not consumed by the body (an if, a bare break, a catch
+           clause ...) ends the labelled statement here (cmplEvaluateNodeStatement, nodeLabelledStatement) *)
         match exec_o fuel s0 (L ++ [t]) s with
+        | (s1, L1, ONorm (OBrk t')) => if Nat.eqb t' t then (s1, pop L1, ONorm OEmpty) else (s1, pop L1, ONorm (OBrk t'))
         | (s1, L1, r) => (s1, pop L1, r)
         end
     | SThrow e =>
